@@ -10,6 +10,7 @@ import TjdModel.Autojac.Spec
 import TjdModel.Autojac.Heap
 import TjdModel.Autojac.Leaves
 import TjdModel.Autojac.Liveness
+import TjdModel.Agg.Others
 namespace Tjd.Driver
 open Tjd SExp
 
@@ -377,10 +378,92 @@ def handle (req : SExp) : Option SExp := do
 
 end LivenessD
 
+/-! ### aggregators -/
+namespace AggD
+open Tjd.Agg
+
+def optVecMargin (r : Option (Vec Rat × Rat)) (J : Mat Rat) : SExp :=
+  match r with
+  | none => list [atom "none"]
+  | some (w, mg) => list [atom "ok", ofRats w, ofRats (combine (ncols J) J w), ofRat mg]
+
+def optVec (r : Option (Vec Rat)) : SExp :=
+  match r with
+  | none => list [atom "none"]
+  | some v => list [atom "ok", ofRats v]
+
+/-- rational enclosure of a square root: `lo ≤ sqrt q ≤ lo + 1/(den·S)` -/
+def sqrtLoHi (q : Rat) : Rat × Rat :=
+  if q ≤ 0 then (0, 0) else
+  let S : Nat := 10 ^ 30
+  let n := q.num.toNat
+  let d := q.den
+  let r := Nat.sqrt (n * d * S * S)
+  (((r : Nat) : Rat) / ((d * S : Nat) : Rat), (((r + 1 : Nat)) : Rat) / ((d * S : Nat) : Rat))
+
+def handle (req : SExp) : Option SExp := do
+  let name ← (← req.field1? "agg").sym?
+  let J ← ratMat? (← req.field1? "J")
+  let q (k : String) : Option Rat := do (← req.field1? k).rat?
+  let v (k : String) : Option (Vec Rat) := do ratList? (← req.field1? k)
+  match name with
+  | "upgrad" => pure (optVecMargin (upgradWeights J (← q "s") (← q "normeps") (← q "regeps") (← v "u")) J)
+  | "dualproj" => pure (optVecMargin (dualprojWeights J (← q "s") (← q "normeps") (← q "regeps") (← v "u")) J)
+  | "mgda" =>
+    let m := J.length
+    let r := mgdaWeights (gram J) m (1 / (m : Rat)) (← q "eps") (← (← req.field1? "iters").nat?)
+    pure (optVecMargin (some r) J)
+  | "pcgrad" =>
+    let perms ← (← req.field? "perms").mapM natList?
+    pure (optVecMargin (some (pcgradWeights (gram J) perms)) J)
+  | "graddrop" => pure (optVec (some (graddrop J (← v "leak") (← v "U") (ncols J))))
+  | "trimmed" => pure (optVec (some (trimmedMean (← (← req.field1? "b").nat?) (ncols J) J)))
+  | "krum" =>
+    let f ← (← req.field1? "f").nat?
+    let k ← (← req.field1? "k").nat?
+    let sq : Mat Rat := J.map fun a => J.map fun b => sqnorm (vsub a b)
+    let Dlo := sq.map (·.map fun x => (sqrtLoHi x).1)
+    let Dhi := sq.map (·.map fun x => (sqrtLoHi x).2)
+    let (wlo, glo) := krumWeights Dlo f k
+    let (whi, _) := krumWeights Dhi f k
+    -- the selection is certified only if both enclosures agree and the score gap dominates the
+    -- enclosure width (2 m / 10^30 per score)
+    if wlo = whi then pure (optVecMargin (some (wlo, glo)) J) else pure (list [atom "none"])
+  | "imtlg" => pure (match imtlgWeights J (← v "d") (← q "guard") with
+      | none => list [atom "none"]
+      | some w => list [atom "ok", ofRats w, ofRats (combine (ncols J) J w)])
+  | "config" => pure (optVec (configVec J (← v "d") (← v "w") (ncols J)))
+  | "aligned" =>
+    let vecs ← ratMat? (← req.field1? "vecs")
+    pure (match alignedWeights J vecs (← v "sigma") (← v "w") with
+      | none => list [atom "none"]
+      | some w => list [atom "ok", ofRats w, ofRats (combine (ncols J) J w)])
+  | "matvec" => pure (list [atom "ok", ofRats (matVec J (← v "x"))])
+  | "gram" => pure (list [atom "ok", ofRatMat (gram J)])
+  | _ => none
+
+/-- C11 validation table -/
+def handleRejects (req : SExp) : Option SExp := do
+  let shape ← natList? (← req.field1? "shape")
+  let finite ← (← req.field1? "finite").bool?
+  let optNat (e : SExp) : Option (Option Nat) := match e with
+    | atom "none" => some none
+    | e => e.nat?.map some
+  let kind ← match ← req.field? "kind" with
+    | [atom "weighted", r] => do pure (AggKind.weighted (← optNat r))
+    | [atom "graddrop", r] => do pure (AggKind.graddrop (← optNat r))
+    | [atom "trimmed", b] => do pure (AggKind.trimmedMean (← b.nat?))
+    | [atom "krum", f, k] => do pure (AggKind.krum (← f.nat?) (← k.nat?))
+    | _ => none
+  pure (ofBool (rejects kind shape finite))
+
+end AggD
+
 def handlers : List (String × (SExp → Option SExp)) :=
   [("typing", TypingD.handle), ("backward", AutojacD.handleBackward),
    ("mtl", AutojacD.handleMtl), ("jacobian", AutojacD.handleJacobian),
-   ("history", AutojacD.handleHistory), ("transform", AutojacD.handleTransform), ("leaves", LeavesD.handle), ("liveness", LivenessD.handle)]
+   ("history", AutojacD.handleHistory), ("transform", AutojacD.handleTransform), ("leaves", LeavesD.handle), ("liveness", LivenessD.handle), ("agg", AggD.handle),
+   ("rejects", AggD.handleRejects)]
 
 def handleLine (line : String) : String :=
   match SExp.parse line with
